@@ -24,7 +24,14 @@ BITS = ["0", "1", "-1", "2", "255", "-128", "127", "128", "-129", "65535", "2147
 U32 = ["0", "1", "255", "2147483647", "2147483648", "4294967295", "4294967296", "-1", "1.5"]
 
 DS = ["@[10 20 30]", "[10 20 30]", "@{:a 1 :b 2}", "{:a 1 :b 2}", '"hello"', '@"hello"', "nil", "5", ":kw", "'sym", "@[]", "[]", "@{}", "{}", '""',
-      "(mk-tab 1)", "@{0 :zero 1 :one}", "(table/setproto @{:own 1} @{:a :proto})", "(int/s64 5)"]
+      "(mk-tab 1)", "@{0 :zero 1 :one}", "(table/setproto @{:own 1} @{:a :proto})", "(int/s64 5)",
+      # stored values that are falsy but not nil / nil-valued entries (a lookup with a default must keep `false`)
+      "@{:a false :b 2}", "{:a false :b 2}", "@[false 20 nil]", "[false nil 30]", "(table/setproto @{:own false} @{:a false})"]
+# keys known to be present in a data structure of DS (so that a random key is not almost always a miss)
+DS_KEYS = {"@[10 20 30]": ["0", "1", "2"], "[10 20 30]": ["0", "2"], "@{:a 1 :b 2}": [":a", ":b"], "{:a 1 :b 2}": [":a", ":b"], '"hello"': ["0", "1"],
+           '@"hello"': ["0", "3"], "@{0 :zero 1 :one}": ["0", "1"], "(table/setproto @{:own 1} @{:a :proto})": [":own", ":a"],
+           "@{:a false :b 2}": [":a", ":b"], "{:a false :b 2}": [":a", ":b"], "@[false 20 nil]": ["0", "1", "2"], "[false nil 30]": ["0", "1", "2"],
+           "(table/setproto @{:own false} @{:a false})": [":own", ":a"]}
 KEYS = ["0", "1", "2", "3", "-1", "100", ":a", ":b", ":zz", "nil", '"x"', "1.5", "math/nan", "true", "2147483648", "[1 2]", ":own", "127", "128", "-129"]
 VALS = ["1", "nil", "65", "300", ":v", '"s"', "-1", "1.5", "@[1]", "false"]
 FIBERS = ["(fiber/new (fn [&opt x] (def y (yield [:y x])) [:ret x y]) :y)",
@@ -145,11 +152,38 @@ def cases(rng, per, funcs=None, arities=range(0, 7)):
             while want > 0 and tries < per * 4:
                 tries += 1
                 ops = tuple(operand(rng, f, i, n) for i in range(n))
+                if f in ("get", "in", "next") and n >= 2 and ops[0] in DS_KEYS and rng.chance(1, 2):
+                    ops = (ops[0], pick(rng, DS_KEYS[ops[0]])) + ops[2:]      # a key that is present
                 if (f, ops) in seen:
                     continue
                 seen.add((f, ops))
                 out.append((f, f in SHARED, list(ops)))
                 want -= 1
+    for c in grid_cases(funcs):
+        if (c[0], tuple(c[2])) not in seen:
+            seen.add((c[0], tuple(c[2])))
+            out.append(c)
+    return out
+
+
+STORED = ["false", "nil", "true", "0", '""', "@[]"]
+CONTAINERS = [("@{:k %s}", ":k"), ("{:k %s}", ":k"), ("@[%s 1]", "0"), ("[1 %s]", "1"), ("(table/setproto @{} @{:k %s})", ":k")]
+DEFAULTS = [":dflt", "false", "nil", "true"]
+
+
+def grid_cases(funcs=None):
+    """systematic family (always run, independent of the seed): lookup of a PRESENT key whose stored value is each kind of value
+    (falsy-but-not-nil, nil, truthy, empty) in each container kind, without and with each kind of default"""
+    out = []
+    for f in ("get", "in"):
+        if funcs and f not in funcs:
+            continue
+        for v in STORED:
+            for mk, key in CONTAINERS:
+                ds = mk % v
+                out.append((f, False, [ds, key]))
+                for d in DEFAULTS:
+                    out.append((f, False, [ds, key, d]))
     return out
 
 
